@@ -765,15 +765,14 @@ class Interp:
         """interval of vid, tightened through relational facts when it is very wide"""
         lo, hi = st.itv[vid]
         if hi - lo > (1 << 40) and st.facts:
-            for (p, s), c in st.facts.items():
-                if p == vid:
-                    hs = st.itv[s][1]
-                    if hs + c < hi:
-                        hi = hs + c
-                elif s == vid:
-                    lp = st.itv[p][0]
-                    if lp - c > lo:
-                        lo = lp - c
+            for s, c in st.facts.out(vid):
+                hs = st.itv[s][1]
+                if hs + c < hi:
+                    hi = hs + c
+            for p, c in st.facts.inc(vid):
+                lp = st.itv[p][0]
+                if lp - c > lo:
+                    lo = lp - c
             if lo > hi:
                 raise Diverge()
             if (lo, hi) != st.itv[vid]:
@@ -786,11 +785,10 @@ class Interp:
             if prov[0] == "div":
                 x, k = prov[1][0], prov[2]
                 # x - s <= c with s = k*t  =>  z - t <= floor(c/k)
-                for (p, s), c in list(st.facts.items()):
-                    if p == x:
-                        sc = st.scale.get(s)
-                        if sc and sc[0] == k:
-                            st.add_fact(z.vid, sc[1], c // k)
+                for s, c in st.facts.out(x):
+                    sc = st.scale.get(s)
+                    if sc and sc[0] == k:
+                        st.add_fact(z.vid, sc[1], c // k)
                 sc = st.scale.get(x)
                 if sc and sc[0] % k == 0 and sc[0] // k == 1:
                     st.add_fact(z.vid, sc[1], 0)
@@ -802,10 +800,11 @@ class Interp:
             if dhi != INF and dlo != -INF and -(1 << 70) < dlo and dhi < (1 << 70):
                 st.add_fact(z.vid, x.vid, dhi)
                 st.add_fact(x.vid, z.vid, -dlo)
-                for (p, s), c in list(st.facts.items()):
-                    if p == x.vid and s != z.vid:
+                for s, c in st.facts.out(x.vid):
+                    if s != z.vid:
                         st.add_fact(z.vid, s, c + dhi)
-                    elif s == x.vid and p != z.vid:
+                for p, c in st.facts.inc(x.vid):
+                    if p != z.vid:
                         st.add_fact(p, z.vid, c - dlo)
 
     def decide_cmp(self, st, op, a, b):
@@ -1176,14 +1175,17 @@ class Interp:
             st.add_fact(a, b, 0)
             st.add_fact(b, a, 0)
             # equal values share their relational bounds
-            for (p, s), c in list(st.facts.items()):
-                if p == a and s != b:
+            for s, c in st.facts.out(a):
+                if s != b:
                     st.add_fact(b, s, c)
-                elif p == b and s != a:
+            for s, c in st.facts.out(b):
+                if s != a:
                     st.add_fact(a, s, c)
-                elif s == a and p != b:
+            for p, c in st.facts.inc(a):
+                if p != b:
                     st.add_fact(p, b, c)
-                elif s == b and p != a:
+            for p, c in st.facts.inc(b):
+                if p != a:
                     st.add_fact(p, a, c)
         elif op == "Ne":
             if lb == hb:
@@ -1201,10 +1203,11 @@ class Interp:
     def add_fact_closed(self, st, a, b, c):
         """a - b <= c, plus one step of closure on both sides"""
         st.add_fact(a, b, c)
-        for (p, s), d in list(st.facts.items()):
-            if s == a and p != b:
+        for p, d in st.facts.inc(a):
+            if p != b:
                 st.add_fact(p, b, d + c)      # p - a <= d , a - b <= c
-            elif p == b and s != a:
+        for s, d in st.facts.out(b):
+            if s != a:
                 st.add_fact(a, s, c + d)      # a - b <= c , b - s <= d
 
     def exclude(self, st, vid, c):
@@ -1219,9 +1222,26 @@ class Interp:
         if p and p[0] == "mod" and c == 0:
             # x mod k != 0 and x - s <= d with s = k*t, d ≡ 0 (mod k)  =>  x - s <= d - 1 ; q = x div k gets q - t <= d/k - 1
             x, k = p[1][0], p[2]
-            if x in st.itv:
-                for (pp, s), d in list(st.facts.items()):
-                    if pp == x and d % k == 0:
+            if x in st.itv and k > 0:
+                xl, xh = st.itv[x]
+                nl, nh = xl, xh
+                if xl >= 0:
+                    if xh != INF and xh % k == 0:
+                        nh = xh - 1
+                    if xl % k == 0:
+                        nl = xl + 1
+                    if (nl, nh) != (xl, xh):
+                        if nl > nh:
+                            raise Diverge()
+                        st.itv[x] = (nl, nh)
+                        for q, pq in list(st.prov.items()):
+                            if pq[0] == "div" and pq[1][0] == x and pq[2] == k and q in st.itv:
+                                ql, qh = st.itv[q]
+                                st.itv[q] = (max(ql, nl // k), min(qh, nh // k) if nh != INF else qh)
+                                self.retighten(st, q)
+                for s, d in st.facts.out(x):
+                    pp = x
+                    if d % k == 0:
                         sc = st.scale.get(s)
                         if sc and sc[0] == k:
                             st.facts[(pp, s)] = d - 1
